@@ -510,6 +510,29 @@ fn run_tables(sh: &mut Shard) {
             case(sh, "magnitude", vec![es(calln("print", a))]);
         }
     }
+    // a first argument that is not a text but whose RENDERING contains placeholders (a list shows its texts
+    // unquoted), with 0..3 further arguments; and such values as the further arguments (substituted text is not
+    // scanned again)
+    {
+        let holders: Vec<Expr> = vec![
+            array(vec![string("{}")]),
+            array(vec![string("{}"), string("en {}")]),
+            array(vec![array(vec![string("a{}b")]), int(1)]),
+            array(vec![int(1), string("{} {}"), flt(1.5)]),
+            array(vec![string("{"), string("}")]),
+            array(vec![string("{}{}{}")]),
+        ];
+        for h in &holders {
+            for nargs in 0..=3usize {
+                let mut a = vec![h.clone()];
+                a.extend((0..nargs).map(|i| if i % 2 == 0 { int(i as i64 + 1) } else { string("twee") }));
+                case(sh, "print-first", vec![es(calln("print", a.clone()))]);
+                case(sh, "print-first", vec![let_("l", h.clone()), es(calln("print", std::iter::once(id("l")).chain(a[1..].iter().cloned()).collect()))]);
+            }
+            case(sh, "print-first", vec![es(calln("print", vec![string("<{}> <{}>"), h.clone(), int(7)]))]);
+            case(sh, "print-first", vec![es(calln("print", vec![h.clone(), h.clone(), string("{}")]))]);
+        }
+    }
     for v in &big {
         case(sh, "print-first", vec![es(calln("print", vec![v.clone(), int(1), string("x")]))]);
         case(sh, "print-first", vec![es(calln("print", vec![string("<{}> <{}>"), v.clone(), v.clone()]))]);
